@@ -83,10 +83,18 @@ def two_way_sums(values):
 def opt_two_way(values, spec):
     """Optimum for 2 bins by subset-sum DP (any number of items): every objective is monotone in the difference."""
     total = sum(values)
-    bits = two_way_sums(values)
     half = total // 2
-    low = bits & ((1 << (half + 1)) - 1)
-    s = low.bit_length() - 1                 # the largest achievable sum <= total/2
+    if total > 4 * 10 ** 6:                  # big values: the set of subset sums (at most 2^n of them) instead of a bitset of `total` bits
+        if len(values) > 22:
+            raise HarnessError("opt_two_way: too many large values for the subset-sum set")
+        sums = {0}
+        for v in values:
+            sums |= {x + v for x in sums if x + v <= half}
+        s = max(sums)
+    else:
+        bits = two_way_sums(values)
+        low = bits & ((1 << (half + 1)) - 1)
+        s = low.bit_length() - 1             # the largest achievable sum <= total/2
     vec = (s, total - s)
     return objective_value(spec, vec)[0]
 
@@ -393,6 +401,12 @@ def validate_oracles(which=("partition", "balanced", "packing", "cover", "water"
                     sense = objective_value(spec, [0])[1]
                     if opt_two_way(values, spec) != (min(vals) if sense == "min" else max(vals)):
                         raise HarnessError(f"opt_two_way oracle wrong on {values},{spec}")
+            for values in ([3 * 10 ** 6, 10 ** 6, 4 * 10 ** 6 + 1, 1, 5, 9 * 10 ** 6, 2, 6], [7 * 10 ** 6] * 3 + [1], [0, 0, 5 * 10 ** 6]):
+                for spec in ("minmax", "maxmin", "diff"):
+                    vals = [objective_value(spec, s)[0] for s in sum_vectors(values, 2)]
+                    sense = objective_value(spec, [0])[1]
+                    if opt_two_way(values, spec) != (min(vals) if sense == "min" else max(vals)):
+                        raise HarnessError(f"opt_two_way (set form) oracle wrong on {values},{spec}")
             for values in ([3, 1, 4, 1, 5, 9, 2, 6], [7, 7, 7, 1], [0, 0, 5], [10, 1, 1, 1, 1, 2], [13, 8, 5, 3, 2, 1, 1], [4], [2, 2],
                            [9, 8, 7, 6, 5, 4, 3, 2, 1], [100, 1, 1], [6, 6, 6, 6, 6, 6, 1]):
                 for spec in ("minmax", "maxmin", "diff"):
